@@ -17,7 +17,8 @@ EXTENDS Integers, Sequences, FiniteSets
 SigVariants == {"absent", "empty", "none0", "good1", "goodq", "bad1", "unknown1", "nilelem", "wrongmsg", "blsbad", "blsnobits", "blsbig"}
 \* variants that carry at least one signature that verifies for the content it is attached to
 SigVerifies(s) == s \in {"good1", "goodq"}
-HashClasses == {"empty", "short", "zero", "genesis", "known", "unknown"}
+\* "fetchable": a block the receiver does not have but can obtain from its peers (votes for it wait for a proposal, then fetch)
+HashClasses == {"empty", "short", "zero", "genesis", "known", "fetchable", "unknown"}
 ViewClasses == {"zero", "below", "cur", "next", "far", "max"}     \* relative to the receiver's view
 
 \* ---- certificates -------------------------------------------------------------------------------
@@ -63,7 +64,7 @@ Messages == Votes \cup NewViews \cup Timeouts \cup Proposals \cup Fetches \cup C
 \* something in the message passes verification (the receiver may then legitimately act on it)
 SIVerifies(si) == QCVerifies(si.qc) \/ TCVerifies(si.tc) \/ AggVerifies(si.agg)
 Verifies(m) ==
-    CASE m.rpc = "vote" -> SigVerifies(m.sig) /\ m.hash = "known"
+    CASE m.rpc = "vote" -> SigVerifies(m.sig) /\ m.hash \in {"known", "fetchable"}
       [] m.rpc = "newview" -> SIVerifies(m.si)
       [] m.rpc = "timeout" -> SigVerifies(m.viewsig)
       [] m.rpc = "propose" -> m.block.present /\ (QCVerifies(m.block.qc) \/ AggVerifies(m.agg))
@@ -71,7 +72,8 @@ Verifies(m) ==
       [] m.rpc = "contribution" -> SigVerifies(m.sig)
 
 \* ---- protocol objects for the round trip (C12) -----------------------------------------------------
-ObjSigs == {"nil", "one", "quorum", "all"}
+\* ("rev" / "rot": the same signers, combined in descending / rotated order -- votes arrive in any order)
+ObjSigs == {"nil", "one", "quorum", "all", "quorumrev", "allrot"}
 Objects ==
     {[kind |-> "qc", sig |-> s, view |-> v, hash |-> h] : s \in ObjSigs, v \in {"zero", "one", "big", "max"}, h \in {"genesis", "known", "zero"}}
     \cup {[kind |-> "tc", sig |-> s, view |-> v] : s \in ObjSigs \ {"nil"}, v \in {"one", "big", "max"}}
